@@ -59,6 +59,14 @@ if sys.platform == "win32":
 
 __all__ = ["ensure_running", "register", "unregister"]
 
+if os.environ.get("LOKY_VERIF"):
+    os.environ.setdefault("LOKY_VERIF_ROLE", "parent")
+    from .._verif_hooks import point as _verif_point
+else:
+
+    def _verif_point(label, **ctx):
+        return None
+
 _HAVE_SIGMASK = hasattr(signal, "pthread_sigmask")
 _IGNORED_SIGNALS = (signal.SIGINT, signal.SIGTERM)
 
@@ -186,11 +194,16 @@ def main(fd, verbose=0):
     if verbose:
         util.log_to_stderr(level=util.DEBUG)
 
+    if os.environ.get("LOKY_VERIF"):
+        os.environ["LOKY_VERIF_ROLE"] = "tracker"
+    _verif_point("tracker.start")
     signal.signal(signal.SIGINT, signal.SIG_IGN)
     signal.signal(signal.SIGTERM, signal.SIG_IGN)
+    _verif_point("tracker.sig_ignored")
 
     if _HAVE_SIGMASK:
         signal.pthread_sigmask(signal.SIG_UNBLOCK, _IGNORED_SIGNALS)
+    _verif_point("tracker.unblocked")
 
     for f in (sys.stdin, sys.stdout):
         try:
